@@ -355,3 +355,45 @@ MUTANTS += [
     {"id": "C11-pixels-extra-header-byte", "prop": "C11", "expect": "PAYLOAD/KittyImageHandler::draw/",
      "edits": [(I, _PIX, '            payload_write.write_all(&[0u8])?;\n' + _PIX)]},
 ]
+
+
+# ---- continuation flag through saturating / min / max forms and a hoisted `last`; payload Vec pre-sized (shadowed `payload`);
+#      debug_assert!s; guarded subtraction in the inverse; Option::replace result used
+_COUNT = "            let count = chunks.len();\n"
+_NEW_ENC = "            let mut payload_write = Base64Encoder::new(Vec::new());\n"
+_PRESIZED = ("            let pixels = img.width().saturating_mul(img.height());\n"
+             "            let groups = pixels.min(img.data().len()).saturating_mul(4).div_ceil(3);\n"
+             "            let mut payload = Vec::new();\n            payload.try_reserve_exact(groups.saturating_mul(4)).ok();\n"
+             "            let mut payload_write = Base64Encoder::new(payload);\n")
+MUTANTS += [
+    {"id": "C11-benign-more-flag-ne-saturating-last", "prop": "C11", "benign": True,
+     "edits": [(I, _COUNT, "            let last = chunks.len().saturating_sub(1);\n"), (I, MORE, "let more = i32::from(index != last);")]},
+    {"id": "C11-benign-more-flag-saturating-remaining", "prop": "C11", "benign": True,
+     "edits": [(I, MORE, "let more = i32::from(count.saturating_sub(index) > 1);")]},
+    {"id": "C11-benign-more-flag-min-next", "prop": "C11", "benign": True,
+     "edits": [(I, MORE, "let more = i32::from((index + 1).min(count) != count);")]},
+    {"id": "C11-benign-more-flag-checked-sub", "prop": "C11", "benign": True,
+     "edits": [(I, MORE, "let more = i32::from(index < count.checked_sub(1).unwrap());")]},
+    {"id": "C11-more-flag-ne-saturating-off-by-one", "prop": "C11", "expect": "TEMPLATE/KittyImageHandler::draw/transmit-first-m",
+     "edits": [(I, _COUNT, "            let last = chunks.len().saturating_sub(2);\n"), (I, MORE, "let more = i32::from(index != last);")]},
+    {"id": "C11-more-flag-ne-count", "prop": "C11", "expect": "TEMPLATE/KittyImageHandler::draw/transmit-first-m",
+     "edits": [(I, MORE, "let more = i32::from(index != count);")]},
+    {"id": "C11-more-flag-saturating-remaining-off-by-one", "prop": "C11", "expect": "TEMPLATE/KittyImageHandler::draw/transmit-first-m",
+     "edits": [(I, MORE, "let more = i32::from(count.saturating_sub(index) > 2);")]},
+    {"id": "C11-benign-payload-presized-shadowed", "prop": "C11", "benign": True, "edits": [(I, _NEW_ENC, _PRESIZED)]},
+    {"id": "C11-payload-presized-shadowed-chunks-4094", "prop": "C11", "expect": "CHUNK/KittyImageHandler::draw/chunk-size-not-multiple-of-4",
+     "edits": [(I, _NEW_ENC, _PRESIZED), (I, "payload.chunks(4096)", "payload.chunks(4094)")]},
+    {"id": "C11-payload-presized-shadowed-skips-first-chunk", "prop": "C11", "expect": "C11/",
+     "edits": [(I, _NEW_ENC, _PRESIZED), (I, "let chunks = payload.chunks(4096);", "let mut chunks = payload.chunks(4096);\n            chunks.next();")]},
+    {"id": "C11-benign-debug-asserts", "prop": "C11", "benign": True,
+     "edits": [(I, "                " + MORE + "\n", "                " + MORE + "\n                debug_assert!(!chunk.is_empty() && chunk.len() % 4 == 0);\n"),
+               (I, "    img.hash() % KITTY_MAX_ID + 1\n", "    let id = img.hash() % KITTY_MAX_ID + 1;\n    debug_assert!((1..=KITTY_MAX_ID).contains(&id));\n    id\n")]},
+    {"id": "C11-benign-inverse-guarded-subtraction", "prop": "C11", "benign": True,
+     "edits": [(I, "    Position {\n" + INVERSE + "\n    }\n",
+                "    let index = if placement_id > 0 {\n        placement_id - 1\n    } else {\n        0\n    };\n"
+                "    Position {\n        col: (index / KITTY_MAX_DIM) as usize,\n        row: (index % KITTY_MAX_DIM) as usize,\n    }\n")]},
+    {"id": "C11-benign-suppress-replace-result", "prop": "C11", "benign": True,
+     "edits": [(I, "                        let suppress = self.suppress;\n                        self.suppress.replace(2);\n", "                        let suppress = self.suppress.replace(2);\n")]},
+    {"id": "C11-benign-pixels-try-for-each", "prop": "C11", "benign": True,
+     "edits": [(I, _PIX, "            img.iter()\n                .try_for_each(|color| payload_write.write_all(&color.to_rgba()))?;\n")]},
+]
